@@ -1,10 +1,19 @@
 import MidnightZK.Model.C01.Schedule
 import MidnightZK.Model.C01.Quotient
 import MidnightZK.Proofs.C01.GraphCorrect
+import MidnightZK.Proofs.C01.TrashComplete
+import MidnightZK.Proofs.C01.LookupPermute
+import MidnightZK.Proofs.C01.LookupProduct
+import MidnightZK.Proofs.C01.IdentityOrder
+import MidnightZK.Proofs.C01.PermComplete
+import MidnightZK.Proofs.C01.Toy
 /-!
 # C01 — honest proofs verify for every circuit shape and proving configuration
 
-Property theorems about the Fiat–Shamir schedules (`Model/C01/Schedule.lean`).
+Property theorems about the Fiat–Shamir schedules (`Model/C01/Schedule.lean`), the quotient
+split (`Quotient.lean`), the expression-graph compiler (`GraphEval.lean`), the order in which
+prover and verifier combine the identities (`Identities.lean`) and the completeness of the
+permutation, lookup and trash arguments as the prover constructs them (`Arguments.lean`).
 -/
 namespace MidnightZK.C01
 
@@ -197,8 +206,7 @@ example : WF ⟨[0, 0, 1], [0], [(0, 0), (1, 0), (2, 1)], [(0, 0), (1, 0)], [(0,
 /-! ### quotient polynomial: split, blind, recombine -/
 
 section Quotient
-open Lean.Grind
-variable {R : Type} [CommRing R]
+variable {R : Type} [Lean.Grind.CommRing R]
 
 private theorem evalPoly_append_single (L : List R) (t x : R) :
     evalPoly (L ++ [t]) x = evalPoly L x + x ^ L.length * t := by
@@ -287,8 +295,8 @@ end Quotient
 /-! ### the expression-graph compiler of the prover -/
 
 section GraphCompiler
-open Lean.Grind Graph
-variable {F : Type} [CommRing F] [DecidableEq F]
+open Graph
+variable {F : Type} [Lean.Grind.CommRing F] [DecidableEq F]
 
 /-- **The prover's expression compiler is correct** (`evaluation.rs: add_expression` +
 `GraphEvaluator::evaluate`): for every gate expression `e`, every well-formed graph `g` it is
@@ -312,5 +320,356 @@ theorem compile_preserves (le : VS → VS → Bool) (env : Env F) (e : Expr F) (
 example : Graph.WF (G.init : G F) := WF_init
 
 end GraphCompiler
+
+/-! ### order in which the identities are combined with `y` -/
+
+section IdentityOrder
+open Ids
+
+/-- **The prover consumes the identities in the verifier's order**, for every shape (any number
+of proofs, gate polynomials, permutation column sets — including none —, lookups and trash
+arguments): the loop nest of `evaluation.rs: evaluate_numerator` (custom gates, then first / last /
+chain / product rules of the permutation argument, then five identities per lookup, then one per
+trash argument, proof after proof) visits exactly the sequence yielded by the iterator chain of
+`plonk/mod.rs: evaluate_identities`. -/
+theorem identity_order_ids (sh : IdShape) : proverIds sh = verifierIds sh := proverIds_eq sh
+
+/-- **Horner sections**: the value the prover accumulates on a row — the custom-gates graph ending
+in `Horner(PreviousValue, parts, Y)` started from the value accumulated so far, followed by the
+`*value = *value * y + …` blocks — equals ONE Horner pass `fold(0, |h, v| h·y + v)` over the
+concatenated identity list, for any values of the identities and any `y` (no ring law is needed:
+the two computations perform the same operations in the same order). -/
+theorem horner_sections {F : Type} [Zero F] [Add F] [Mul F] (sh : IdShape) (val : IdTerm → F) (y : F) :
+    proverFold sh val y = (proverIds sh).foldl (fun h t => h * y + val t) 0 :=
+  proverFold_eq_accum sh val y
+
+/-- **Identity order agreement** (`evaluate_numerator` vs `evaluate_identities` + `verify`): for
+every shape, every valuation of the identities and every `y`, the prover's accumulated numerator
+value equals the verifier's `fold(ZERO, |h, v| h * y + v)` over its expression chain. -/
+theorem identity_order_agree {F : Type} [Zero F] [Add F] [Mul F] (sh : IdShape) (val : IdTerm → F) (y : F) :
+    proverFold sh val y = verifierFold sh val y := by
+  rw [horner_sections, identity_order_ids]; rfl
+
+/-- Non-vacuity: two proofs, three gate polynomials, two column sets, one lookup, one trash
+argument: 2·(3 + (1+1+1+2) + 5 + 1) = 28 identities; and a shape without permutation sets. -/
+example : (verifierIds ⟨2, 3, 2, 1, 1⟩).length = 28 ∧ (proverIds ⟨1, 1, 0, 0, 1⟩) = [.gate 0 0, .trash 0 0] := by
+  decide
+
+end IdentityOrder
+
+/-! ### trash argument -/
+
+section Trash
+open Args
+variable {F : Type} [CommRing F]
+
+/-- **The honest trash column satisfies the verifier's trash identity on every row**
+(`trash/prover.rs: commit` vs `trash.rs: Evaluated::expressions`): for every domain size `n`,
+challenge, selector vector `q` and constraint-expression value vectors (of length `n`) such that
+`q·constraint = 0` on every row — the condition the mock checker tests; in particular
+"`q = 1` ⇒ every constraint is 0" for a Boolean selector, see `trash_complete_selector` — the
+column computed by `trashValues` makes `compressed − (1 − q)·trash` vanish on EVERY row, the
+blinding rows included (the prover does not blind the trash column). Over any commutative ring. -/
+theorem trash_complete (n : Nat) (c : F) (q : List F) (exprs : List (List F))
+    (hl : ∀ e ∈ exprs, e.length = n)
+    (hsat : ∀ i, i < n → ∀ e ∈ exprs, q.getD i 0 * e.getD i 0 = 0) :
+    ∀ i, i < n → trashExpressionRow c q exprs (trashValues n c exprs) i = 0 :=
+  fun i hi => trash_row_complete n c q exprs hl i hi (hsat i hi)
+
+/-- The same for a Boolean selector column: `q ∈ {0, 1}` on every row and every constraint
+expression is `0` on the rows where `q = 1`. -/
+theorem trash_complete_selector (n : Nat) (c : F) (q : List F) (exprs : List (List F))
+    (hl : ∀ e ∈ exprs, e.length = n)
+    (hq : ∀ i, i < n → q.getD i 0 = 0 ∨ q.getD i 0 = 1)
+    (hsat : ∀ i, i < n → q.getD i 0 = 1 → ∀ e ∈ exprs, e.getD i 0 = 0) :
+    ∀ i, i < n → trashExpressionRow c q exprs (trashValues n c exprs) i = 0 := by
+  apply trash_complete n c q exprs hl
+  intro i hi e he
+  rcases hq i hi with h | h
+  · rw [h, zero_mul]
+  · rw [hsat i hi h e he, mul_zero]
+
+/-- The trash column is the verifier's compressed expression on every row. -/
+theorem trash_values_spec (n : Nat) (c : F) (exprs : List (List F)) (hl : ∀ e ∈ exprs, e.length = n) :
+    ∀ i, i < n → (trashValues n c exprs).getD i 0 = compressRow c exprs i :=
+  fun i hi => trash_value_eq n c exprs hl i hi
+
+end Trash
+
+/-- Non-vacuity over `ℤ`: `n = 3`, selector `[1, 0, 0]`, two constraint expressions that vanish
+on row 0 only; the trash column is `[0, 2·5 + 3, 4·5 + 1]`. -/
+example : (∀ i, i < 3 → Args.trashExpressionRow (5 : Int) [1, 0, 0] [[0, 2, 4], [0, 3, 1]]
+      (Args.trashValues 3 5 [[0, 2, 4], [0, 3, 1]]) i = 0) ∧
+    Args.trashValues 3 (5 : Int) [[0, 2, 4], [0, 3, 1]] = [0, 13, 21] :=
+  ⟨trash_complete_selector 3 5 _ _ (by decide) (by decide) (by decide), by decide⟩
+
+/-! ### lookup argument -/
+
+section Lookup
+open Args
+variable {α : Type} [DecidableEq α]
+
+/-- **Specification of `permute_expression_pair`** (`lookup/prover.rs`), success case. For every
+decidable linear order `le` (`Ord` of the field), every iteration order `order` of the leftover
+`HashMap` that is a permutation of its entries (HashMap-order independence), every number `u` of
+usable rows and vectors `A`, `S` with at least `u` entries such that every usable input value
+occurs among the usable table values, the function returns `Ok((A' ++ blinding, S' ++ blinding))`
+where `A'` is the sorted permutation of the usable input rows, `S'` is a permutation of the usable
+table rows, `A'₀ = S'₀`, and on every usable row `A'ᵢ = S'ᵢ` or (`i > 0` and) `A'ᵢ = A'ᵢ₋₁`.
+In particular none of its `assert!`/`unwrap` can fire. -/
+theorem lookup_permuted_spec (le : α → α → Bool) (hle : LinOrd le) (zero : α)
+    (order : List (α × Nat) → List (α × Nat)) (horder : ∀ m, (order m).Perm m)
+    (u : Nat) (A S blindA blindS : List α) (hA : u ≤ A.length) (hS : u ≤ S.length)
+    (hsub : ∀ x ∈ A.take u, x ∈ S.take u) :
+    ∃ A' S' : List α,
+      permuteExpressionPair le zero order u A S blindA blindS = .ok (A' ++ blindA) (S' ++ blindS) ∧
+      A'.Perm (A.take u) ∧ A'.Pairwise (fun a b => le a b = true) ∧
+      S'.Perm (S.take u) ∧
+      A'[0]? = S'[0]? ∧
+      (∀ i, i < u → A'[i]? = S'[i]? ∨ (0 < i ∧ A'[i]? = A'[i - 1]?)) := by
+  obtain ⟨S', hok, hperm, hadj⟩ := permute_ok le hle zero order horder u A S blindA blindS hA hS hsub
+  refine ⟨sortList le (A.take u), S', hok, sortList_perm le _, sortList_sorted le hle _, hperm, ?_, hadj⟩
+  by_cases hu : 0 < u
+  · rcases hadj 0 hu with h | ⟨h, _⟩
+    · exact h
+    · exact absurd h (Nat.lt_irrefl 0)
+  · have hu0 : u = 0 := by omega
+    subst hu0
+    have h1 : (sortList le (A.take 0)) = [] := by simp [sortList]
+    have h2 : S' = [] := by simpa using hperm
+    rw [h1, h2]
+
+/-- **Failure case**: when some usable input value does not occur among the usable table values
+`permute_expression_pair` returns `Err(ConstraintSystemFailure)` — it neither panics nor returns a
+pair — for every iteration order of the map and vectors of any length. -/
+theorem lookup_permuted_fail (le : α → α → Bool) (hle : LinOrd le) (zero : α)
+    (order : List (α × Nat) → List (α × Nat))
+    (u : Nat) (A S blindA blindS : List α)
+    (hmiss : ∃ x ∈ A.take u, x ∉ S.take u) :
+    permuteExpressionPair le zero order u A S blindA blindS = .constraintSystemFailure :=
+  permute_fail le hle zero order u A S blindA blindS hmiss
+
+/-- **`permute_expression_pair` never panics** on vectors with at least `u` entries, whatever the
+values and whatever the iteration order of the `HashMap`. -/
+theorem lookup_permuted_no_panic (le : α → α → Bool) (hle : LinOrd le) (zero : α)
+    (order : List (α × Nat) → List (α × Nat)) (horder : ∀ m, (order m).Perm m)
+    (u : Nat) (A S blindA blindS : List α) (hA : u ≤ A.length) (hS : u ≤ S.length) :
+    permuteExpressionPair le zero order u A S blindA blindS ≠ .panic := by
+  by_cases hsub : ∀ x ∈ A.take u, x ∈ S.take u
+  · obtain ⟨S', hok, _⟩ := permute_ok le hle zero order horder u A S blindA blindS hA hS hsub
+    rw [hok]; intro h; cases h
+  · have hmiss : ∃ x ∈ A.take u, x ∉ S.take u := by
+      by_contra hc
+      apply hsub
+      intro x hx
+      by_contra hx'
+      exact hc ⟨x, hx, hx'⟩
+    rw [permute_fail le hle zero order u A S blindA blindS hmiss]
+    intro h; cases h
+
+end Lookup
+
+/-- Non-vacuity (kernel-evaluated): 4 usable rows, inputs `[3,1,3,1]` with repeated values, table
+`[1,2,3,2]` with leftover values, map iterated in reverse order. -/
+example : Args.permuteExpressionPair (fun a b => decide (a ≤ b)) 0 List.reverse 4
+      [3, 1, 3, 1, 9, 9] [1, 2, 3, 2, 7, 7] [100, 101] [200, 201] =
+    .ok [1, 1, 3, 3, 100, 101] [1, 2, 3, 2, 200, 201] := by decide
+
+example : ∃ A' S' : List Nat,
+    Args.permuteExpressionPair (fun a b => decide (a ≤ b)) 0 List.reverse 4
+      [3, 1, 3, 1, 9, 9] [1, 2, 3, 2, 7, 7] [100, 101] [200, 201] = .ok (A' ++ [100, 101]) (S' ++ [200, 201]) ∧
+    A'.Perm ([3, 1, 3, 1, 9, 9].take 4) ∧ A'.Pairwise (fun a b => decide (a ≤ b) = true) ∧
+    S'.Perm ([1, 2, 3, 2, 7, 7].take 4) ∧ A'[0]? = S'[0]? ∧
+    (∀ i, i < 4 → A'[i]? = S'[i]? ∨ (0 < i ∧ A'[i]? = A'[i - 1]?)) :=
+  lookup_permuted_spec _ perm_natLinOrd 0 List.reverse (fun m => List.reverse_perm m) 4 _ _ _ _
+    (by decide) (by decide) (by decide)
+
+section LookupProduct
+open Args
+variable {F : Type} [Field F] [DecidableEq F]
+
+/-- **Lookup argument completeness** (`lookup/prover.rs: commit_permuted` + `commit_product` vs
+`lookup.rs: Evaluated::expressions`). For every domain size `n ≥ bf + 2`, compressed input and
+table vectors `A`, `S` of length `n`, every linear order on the field and every iteration order of
+the leftover `HashMap`: if `permute_expression_pair` returned `Ok((A', S'))` and no denominator
+`(β + A'ᵢ)(γ + S'ᵢ)` vanishes on a usable row (the exceptional set of challenges), then with the
+product vector `z` of `commit_product` (any blinding values `rnd`) all five lookup identities —
+`l_0(1 − z)`, `l_last(z² − z)`, the product rule, `l_0(a' − s')`, `(a' − s')(a' − a'(ω⁻¹X))` on
+active rows — vanish on EVERY row of the domain. -/
+theorem lookup_product_complete (le : F → F → Bool) (hle : LinOrd le)
+    (order : List (F × Nat) → List (F × Nat)) (horder : ∀ m, (order m).Perm m)
+    (n bf : Nat) (β γ : F) (A S blindA blindS rnd A' S' : List F)
+    (hn : bf + 2 ≤ n) (hA : A.length = n) (hS : S.length = n)
+    (hok : permuteExpressionPair le 0 order (n - (bf + 1)) A S blindA blindS = .ok A' S')
+    (hden : ∀ i, i < n - (bf + 1) → (β + A'.getD i 0) * (γ + S'.getD i 0) ≠ 0) :
+    ∀ i, i < n → ∀ e ∈ lookupExpressionsRow n bf β γ A S A' S'
+        (lookupProduct (fun x => x⁻¹) n bf β γ A S A' S' rnd) i, e = 0 := by
+  have hsub : ∀ x ∈ A.take (n - (bf + 1)), x ∈ S.take (n - (bf + 1)) := by
+    intro x hx
+    by_contra hx'
+    rw [permute_fail le hle 0 order _ A S blindA blindS ⟨x, hx, hx'⟩] at hok
+    cases hok
+  obtain ⟨s, hok', hs, hadj⟩ := permute_ok le hle 0 order horder (n - (bf + 1)) A S blindA blindS
+    (by omega) (by omega) hsub
+  rw [hok'] at hok
+  injection hok with hA' hS'
+  subst hA' hS'
+  have hla : (sortList le (A.take (n - (bf + 1)))).length = n - (bf + 1) := by
+    rw [(sortList_perm le _).length_eq, List.length_take]; omega
+  have hls : s.length = n - (bf + 1) := by
+    rw [hs.length_eq, List.length_take]; omega
+  apply lookup_product_rows n bf β γ A S _ s blindA blindS rnd hn hA hS (sortList_perm le _) hs hadj
+  intro i hi
+  have h := hden i hi
+  rw [LookupLemmas.getD_append_left _ _ _ (by omega), LookupLemmas.getD_append_left _ _ _ (by omega)] at h
+  exact h
+
+end LookupProduct
+
+/-- Non-vacuity over `ZMod 7`: five rows, one blinding factor, the pair returned by
+`permuteExpressionPair` for inputs `[2,1,2]` / table `[1,2,3]`; all hypotheses hold. -/
+example : ∀ i, i < 5 → ∀ e ∈ Args.lookupExpressionsRow 5 1 (1 : ZMod 7) 1 [2, 1, 2, 0, 0] [1, 2, 3, 5, 5]
+      [1, 2, 2, 4, 6] [1, 2, 3, 6, 4]
+      (Args.lookupProduct (fun x => x⁻¹) 5 1 1 1 [2, 1, 2, 0, 0] [1, 2, 3, 5, 5] [1, 2, 2, 4, 6] [1, 2, 3, 6, 4] [3]) i,
+      e = 0 :=
+  lookup_product_complete Toy.le7 Toy.le7_lin List.reverse (fun m => List.reverse_perm m) 5 1 1 1
+    [2, 1, 2, 0, 0] [1, 2, 3, 5, 5] [4, 6] [6, 4] [3] [1, 2, 2, 4, 6] [1, 2, 3, 6, 4] (by decide) rfl rfl
+    Toy.permuted_ok Toy.den_ne
+
+/-! ### permutation argument -/
+
+section Permutation
+open Args
+variable {F : Type} [Field F]
+
+/-- **Permutation argument: the rules that hold by construction.** For every layout (any number of
+permutation columns, any `chunk_len ≥ 1`, any `n ≥ blinding_factors + 1`, any blinding values) and
+ANY cell values and σ-labels — no copy constraint needs to hold — such that no denominator
+`β·σ + γ + v` vanishes on a usable row, the product vectors of `permutation/prover.rs: commit`
+satisfy on EVERY row of the domain: the first rule `l_0(1 − z_0)`, every chain rule
+`l_0(z_s − z_{s−1}(ω^{−(bf+1)}X))` (the prover's `last_z` carried between the column sets), and
+every product rule `(z_s(ωX)∏(v + βσ + γ) − z_s(X)∏(v + βδ^jX + γ))·(1 − (l_last + l_blind))`
+(the prover's `deltaomega` advanced by `δ` per column across the sets equals the verifier's
+`δ^(chunk_index·chunk_len)`; blinding rows are masked). -/
+theorem perm_rule_rows (chunkLen n bf : Nat) (β γ δ ω : F) (rnd : Nat → Nat → F)
+    (cols : List (List F × List F)) (hchunk : 1 ≤ chunkLen) (hn : bf + 1 ≤ n)
+    (hlen : ∀ c ∈ cols, c.1.length = n ∧ c.2.length = n)
+    (hden : ∀ c ∈ cols, ∀ i, i < n - (bf + 1) → β * c.2.getD i 0 + γ + c.1.getD i 0 ≠ 0)
+    (i : Nat) (hi : i < n) :
+    ∀ e ∈ permRuleFirst chunkLen n bf β γ δ ω cols (permProducts (fun x => x⁻¹) chunkLen n bf β γ δ ω rnd cols) i ++
+        permRuleChain chunkLen n bf β γ δ ω cols (permProducts (fun x => x⁻¹) chunkLen n bf β γ δ ω rnd cols) i ++
+        permRuleProd chunkLen n bf β γ δ ω cols (permProducts (fun x => x⁻¹) chunkLen n bf β γ δ ω rnd cols) i,
+      e = 0 :=
+  perm_rule_rows_pf chunkLen n bf β γ δ ω rnd cols hchunk hn hlen hden i hi
+
+/-- The four groups are all of `permExpressionsRow` (the verifier's `permutation.rs: expressions`). -/
+theorem perm_rules_split (chunkLen n bf : Nat) (β γ δ ω : F) (cols : List (List F × List F))
+    (zs : List (List F)) (i : Nat) :
+    permExpressionsRow chunkLen n bf β γ δ ω cols zs i =
+      permRuleFirst chunkLen n bf β γ δ ω cols zs i ++ permRuleLast chunkLen n bf β γ δ ω cols zs i ++
+        permRuleChain chunkLen n bf β γ δ ω cols zs i ++ permRuleProd chunkLen n bf β γ δ ω cols zs i :=
+  permExpressionsRow_split chunkLen n bf β γ δ ω cols zs i
+
+/-- **Value of the last product vector at the last usable row** `u = n − (bf+1)`: the product of
+the numerators `v + β·δ^j·ω^i + γ` over ALL usable cells of ALL permutation columns times the
+inverse of the product of the denominators `v + β·σ + γ` (the running products of the column sets
+are chained through `last_z`). -/
+theorem perm_last_value (chunkLen n bf : Nat) (β γ δ ω : F) (rnd : Nat → Nat → F)
+    (cols : List (List F × List F)) (hchunk : 1 ≤ chunkLen) (hn : bf + 1 ≤ n)
+    (hlen : ∀ c ∈ cols, c.1.length = n ∧ c.2.length = n) (hcols : cols ≠ []) :
+    (permProducts (fun x => x⁻¹) chunkLen n bf β γ δ ω rnd cols).getLast?.map (fun z => z.getD (n - (bf + 1)) 0)
+      = some (permNum β γ δ ω (n - (bf + 1)) cols * (permDen β γ (n - (bf + 1)) cols)⁻¹) :=
+  perm_last_value_pf chunkLen n bf β γ δ ω rnd cols hchunk hn hlen hcols
+
+/-- **The last rule** `l_last·(z_last² − z_last)` vanishes on every row when the product of the
+numerators equals the product of the denominators (and no denominator vanishes). -/
+theorem perm_last_complete (chunkLen n bf : Nat) (β γ δ ω : F) (rnd : Nat → Nat → F)
+    (cols : List (List F × List F)) (hchunk : 1 ≤ chunkLen) (hn : bf + 1 ≤ n)
+    (hlen : ∀ c ∈ cols, c.1.length = n ∧ c.2.length = n)
+    (hden : ∀ c ∈ cols, ∀ i, i < n - (bf + 1) → β * c.2.getD i 0 + γ + c.1.getD i 0 ≠ 0)
+    (hprod : permNum β γ δ ω (n - (bf + 1)) cols = permDen β γ (n - (bf + 1)) cols)
+    (i : Nat) (hi : i < n) :
+    ∀ e ∈ permRuleLast chunkLen n bf β γ δ ω cols (permProducts (fun x => x⁻¹) chunkLen n bf β γ δ ω rnd cols) i,
+      e = 0 :=
+  perm_last_complete_pf chunkLen n bf β γ δ ω rnd cols hchunk hn hlen hden hprod i hi
+
+/-- **Permutation argument completeness** (`permutation/prover.rs: commit` vs `permutation.rs:
+expressions`). For every layout (any number of permutation columns, any `chunk_len ≥ 1`, any
+`n ≥ blinding_factors + 1`, any blinding values `rnd`): if the multiset of (value, σ-label) pairs
+over the usable cells equals the multiset of (value, identity-label `δ^j·ω^i`) pairs — i.e. the
+σ-labels are a permutation of the identity labels along which the cell values are invariant, see
+`sigma_invariant_pairs_perm` — and no denominator `β·σ + γ + v` vanishes on a usable row (the
+exceptional set of challenges), then ALL identities of the permutation argument (first, last,
+chain between column sets, product rule) vanish on EVERY row of the domain. -/
+theorem perm_product_complete (chunkLen n bf : Nat) (β γ δ ω : F) (rnd : Nat → Nat → F)
+    (cols : List (List F × List F)) (hchunk : 1 ≤ chunkLen) (hn : bf + 1 ≤ n)
+    (hlen : ∀ c ∈ cols, c.1.length = n ∧ c.2.length = n)
+    (hden : ∀ c ∈ cols, ∀ i, i < n - (bf + 1) → β * c.2.getD i 0 + γ + c.1.getD i 0 ≠ 0)
+    (hperm : (sigmaPairs (n - (bf + 1)) cols).Perm (idPairs δ ω (n - (bf + 1)) cols))
+    (i : Nat) (hi : i < n) :
+    ∀ e ∈ permExpressionsRow chunkLen n bf β γ δ ω cols
+        (permProducts (fun x => x⁻¹) chunkLen n bf β γ δ ω rnd cols) i, e = 0 :=
+  perm_product_complete_pf chunkLen n bf β γ δ ω rnd cols hchunk hn hlen hden hperm i hi
+
+/-- **The multiset hypothesis from the copy permutation.** If `π` is a bijection of the usable
+cells (column `j`, row `i < u`) such that the σ-label of every cell is the identity label
+`δ^j'·ω^i'` of its image `π (j, i) = (j', i')` and the cell carries the same value as its image
+(all copy constraints hold), then the (value, σ-label) pairs are a permutation of the
+(value, identity-label) pairs. -/
+theorem sigma_invariant_pairs_perm (δ ω : F) (u : Nat) (cols : List (List F × List F))
+    (π : Equiv.Perm (Fin cols.length × Fin u))
+    (hσ : ∀ (j : Fin cols.length) (i : Fin u),
+      (cols[j]).2.getD i 0 = powN δ (π (j, i)).1 * powN ω (π (j, i)).2)
+    (hv : ∀ (j : Fin cols.length) (i : Fin u),
+      (cols[j]).1.getD i 0 = (cols[(π (j, i)).1]).1.getD (π (j, i)).2 0) :
+    (sigmaPairs u cols).Perm (idPairs δ ω u cols) :=
+  sigma_invariant_pairs_perm_pf δ ω u cols π hσ hv
+
+/-- **Permutation argument completeness, stated with the copy permutation itself**: if `π` is a
+bijection of the usable cells such that every σ-label is the identity label of the image cell and
+every cell carries the value of its image (the copy constraints hold and σ encodes them), and no
+denominator vanishes, then all permutation identities vanish on every row. -/
+theorem perm_product_complete_of_bijection (chunkLen n bf : Nat) (β γ δ ω : F) (rnd : Nat → Nat → F)
+    (cols : List (List F × List F)) (hchunk : 1 ≤ chunkLen) (hn : bf + 1 ≤ n)
+    (hlen : ∀ c ∈ cols, c.1.length = n ∧ c.2.length = n)
+    (hden : ∀ c ∈ cols, ∀ i, i < n - (bf + 1) → β * c.2.getD i 0 + γ + c.1.getD i 0 ≠ 0)
+    (π : Equiv.Perm (Fin cols.length × Fin (n - (bf + 1))))
+    (hσ : ∀ (j : Fin cols.length) (i : Fin (n - (bf + 1))),
+      (cols[j]).2.getD i 0 = powN δ (π (j, i)).1 * powN ω (π (j, i)).2)
+    (hv : ∀ (j : Fin cols.length) (i : Fin (n - (bf + 1))),
+      (cols[j]).1.getD i 0 = (cols[(π (j, i)).1]).1.getD (π (j, i)).2 0)
+    (i : Nat) (hi : i < n) :
+    ∀ e ∈ permExpressionsRow chunkLen n bf β γ δ ω cols
+        (permProducts (fun x => x⁻¹) chunkLen n bf β γ δ ω rnd cols) i, e = 0 :=
+  perm_product_complete chunkLen n bf β γ δ ω rnd cols hchunk hn hlen hden
+    (sigma_invariant_pairs_perm δ ω _ cols π hσ hv) i hi
+
+end Permutation
+
+/-- Non-vacuity over `ℚ`: four rows, one blinding factor, two columns in two sets whose usable
+cells `5, 7` / `7, 5` are swapped crosswise by σ (`δ = 2`, `ω = 3`, `β = γ = 1`). -/
+example (rnd : Nat → Nat → ℚ) (i : Nat) (hi : i < 4) :
+    ∀ e ∈ Args.permExpressionsRow 1 4 1 (1 : ℚ) 1 2 3 exCols
+        (Args.permProducts (fun x => x⁻¹) 1 4 1 (1 : ℚ) 1 2 3 rnd exCols) i, e = 0 :=
+  perm_product_complete 1 4 1 (1 : ℚ) 1 2 3 rnd _ (Nat.le_refl 1) (by decide) exCols_len exCols_den exCols_perm i hi
+
+/-- Non-vacuity of the bijection form: the copy permutation `(j, i) ↦ (1 − j, 1 − i)` of the same
+instance satisfies the hypotheses of `sigma_invariant_pairs_perm` and of
+`perm_product_complete_of_bijection`. -/
+example : (sigmaPairs (4 - (1 + 1)) exCols).Perm (idPairs (2 : ℚ) 3 (4 - (1 + 1)) exCols) :=
+  sigma_invariant_pairs_perm 2 3 _ exCols exPi exPi_sigma exPi_val
+
+example (rnd : Nat → Nat → ℚ) (i : Nat) (hi : i < 4) :
+    ∀ e ∈ Args.permExpressionsRow 1 4 1 (1 : ℚ) 1 2 3 exCols
+        (Args.permProducts (fun x => x⁻¹) 1 4 1 (1 : ℚ) 1 2 3 rnd exCols) i, e = 0 :=
+  perm_product_complete_of_bijection 1 4 1 (1 : ℚ) 1 2 3 rnd _ (Nat.le_refl 1) (by decide) exCols_len exCols_den
+    exPi exPi_sigma exPi_val i hi
+
+/-- Non-vacuity of `perm_last_value`: for `exCols` the last product vector at row `u = 2` is
+`permNum · permDen⁻¹`. -/
+example (rnd : Nat → Nat → ℚ) :
+    (Args.permProducts (fun x => x⁻¹) 1 4 1 (1 : ℚ) 1 2 3 rnd exCols).getLast?.map (fun z => z.getD (4 - (1 + 1)) 0)
+      = some (permNum 1 1 2 3 (4 - (1 + 1)) exCols * (permDen 1 1 (4 - (1 + 1)) exCols)⁻¹) :=
+  perm_last_value 1 4 1 (1 : ℚ) 1 2 3 rnd exCols (Nat.le_refl 1) (by decide) exCols_len (by decide)
 
 end MidnightZK.C01
